@@ -59,6 +59,15 @@ fn keys_hash(choices: &[(String, usize, usize)], n: usize) -> u64 {
 }
 
 pub fn explore(bound: usize, max_runs: u64, run_one: &(dyn Fn(&[usize]) -> RunOutcome + Sync)) -> Summary {
+    explore_impl(bound, max_runs, run_one, true)
+}
+
+/// Same, running the executions of a level one after the other (for use inside an outer par_map).
+pub fn explore_seq(bound: usize, max_runs: u64, run_one: &(dyn Fn(&[usize]) -> RunOutcome + Sync)) -> Summary {
+    explore_impl(bound, max_runs, run_one, false)
+}
+
+fn explore_impl(bound: usize, max_runs: u64, run_one: &(dyn Fn(&[usize]) -> RunOutcome + Sync), parallel: bool) -> Summary {
     let mut sum = Summary {
         runs: 0,
         choice_points: 0,
@@ -82,14 +91,19 @@ pub fn explore(bound: usize, max_runs: u64, run_one: &(dyn Fn(&[usize]) -> RunOu
             sum.capped = true;
             break;
         }
-        let results = par_map(&level, |_, (prefix, expect)| {
+        let one = |prefix: &Vec<usize>, expect: &Option<u64>| {
             let o = run_one(prefix);
             let diverged = o.out_of_range
                 || o.choices.len() < prefix.len()
                 || expect.map_or(false, |e| keys_hash(&o.choices, prefix.len()) != e)
                 || o.choices.iter().zip(prefix.iter()).any(|((_, _, c), p)| c != p);
             (o, diverged)
-        });
+        };
+        let results: Vec<(RunOutcome, bool)> = if parallel {
+            par_map(&level, |_, (prefix, expect)| one(prefix, expect))
+        } else {
+            level.iter().map(|(prefix, expect)| one(prefix, expect)).collect()
+        };
         let mut next: Vec<(Vec<usize>, Option<u64>)> = vec![];
         for ((prefix, _), (o, diverged)) in level.iter().zip(results.into_iter()) {
             if diverged {
